@@ -1015,6 +1015,7 @@ static void CopySamplesRaw(OPN2_UInt8 *dstLeft, OPN2_UInt8 *dstRight, const int3
                            size_t frameCount, unsigned sampleOffset)
 {
     for(size_t i = 0; i < frameCount; ++i) {
+        VERIF_LOOP(opnmidi_copy_raw)
         *(Dst *)(dstLeft + (i * sampleOffset)) = src[2 * i];
         *(Dst *)(dstRight + (i * sampleOffset)) = src[(2 * i) + 1];
     }
@@ -1026,6 +1027,7 @@ static void CopySamplesTransformed(OPN2_UInt8 *dstLeft, OPN2_UInt8 *dstRight, co
                                    Ret(&transform)(int32_t))
 {
     for(size_t i = 0; i < frameCount; ++i) {
+        VERIF_LOOP(opnmidi_copy_transformed)
         *(Dst *)(dstLeft + (i * sampleOffset)) = static_cast<Dst>(transform(src[2 * i]));
         *(Dst *)(dstRight + (i * sampleOffset)) = static_cast<Dst>(transform(src[(2 * i) + 1]));
     }
